@@ -213,6 +213,10 @@ func c07Padded() []*lexref.Spec {
 	return out
 }
 
+// pairsShort: the quick tier runs the two-instance pass on every 4th
+// specification of a family, with inputs of up to 2 symbols (every 64th: 3).
+var pairsShort = true
+
 var c07Symbols = [][]byte{[]byte("a"), []byte("b"), []byte("c"), []byte("z")}
 
 func c07One(ws *pipe.Workspace, fam string, idx int64, s *lexref.Spec, depth, L int, st *mc.Stats) []mc.Violation {
@@ -276,6 +280,34 @@ func c07One(ws *pipe.Workspace, fam string, idx int64, s *lexref.Spec, depth, L 
 				Detail: fmt.Sprintf("spec {%s} input %q: driver produced %v (stuck=%v panic=%q), the rules define %v", s.OneLine(), in, got, stuck, pmsg, want)})
 		}
 	})
+	if len(out) > 0 || len(s.Modes) < 2 || (pairsShort && idx%4 != 0) {
+		return out
+	}
+	// The mode stack belongs to its state machine: two state machines of the
+	// package used in turns (one PushRune call each), over every ordered pair of
+	// short inputs, do what each does alone.
+	var alpha []int
+	for _, r := range lx.Alphabet(b.C, nil) {
+		// (the rules of this check are literals over lower-case letters; the other
+		// representatives are characters no rule matches)
+		if r >= 'a' && r <= 'z' && len(alpha) < 6 {
+			alpha = append(alpha, r)
+		}
+	}
+	lp := 3
+	if len(alpha) > 4 || (pairsShort && idx%64 != 0) {
+		lp = 2
+	}
+	var inputs [][]int
+	forStrings(alpha, lp, func(w []int) { inputs = append(inputs, append([]int(nil), w...)) })
+	pr2 := lx.Pairs(b, px.NB, inputs)
+	st.Add("instance_pairs", int64(pr2.Pairs))
+	st.Transitions += int64(pr2.Calls)
+	if pr2.Problem != "" {
+		out = append(out, mc.Violation{Property: "C07", Check: "C07", Kind: "instances-interfere", Size: len(s.OneLine())*100 + len(pr2.U) + len(pr2.V),
+			Case:   lexCaseJSON(fam, idx, s, nil, nil, L),
+			Detail: fmt.Sprintf("spec {%s}: %s", s.OneLine(), pr2.Problem)})
+	}
 	return out
 }
 
@@ -283,6 +315,7 @@ func c07Worker(c *mc.Ctx) {
 	ws := pipe.NewWorkspace("c07")
 	defer ws.Close()
 	depth, L := 5, 6
+	pairsShort = c.Quick()
 	if c.Quick() {
 		depth, L = 3, 5
 	}
@@ -344,7 +377,7 @@ func init() {
 		ID:    "C07",
 		Level: "model_checking",
 		Rule: "mode graphs: 2-3 modes, 1-2 literal rules per mode; every rule is written in every way from {token, accumulating fragment, @discard fragment, @emit fragment} x {no mode action, @push_mode(each mode incl. the default), @pop_mode} x every order of the written actions (thorough: also two mode actions on one rule); plus specifications with 4 and 10-13 modes (two-digit mode numbers) under three orders of mode names relative to declaration order, and a keyword / identifier pair with mode actions followed by 0-22 one-character rules (state numbers running through one and two digits); " +
-			"each: BFS of the product (real state machine) x (reference mode-stack machine), mode stack bounded by depth D (deeper pushes close the branch and are counted), plus all strings up to L over the pattern characters through the real driver (token texts include accumulated fragment text); non-trivial = spec with > 2 product states",
+			"each: BFS of the product (real state machine) x (reference mode-stack machine), mode stack bounded by depth D (deeper pushes close the branch and are counted), plus all strings up to L over the pattern characters through the real driver (token texts include accumulated fragment text); plus, for specifications with modes, two state machines of the package used in turns (one PushRune call each) over every ordered pair of inputs of up to 3 symbols (quick tier: every 4th specification, inputs of up to 2 symbols, every 64th up to 3), each compared call by call with itself used alone; non-trivial = spec with > 2 product states",
 		Assume: []string{"reference: internal/lx RefM (documented stack discipline; every written action takes effect; several mode actions on one rule execute in written order)", "nothing is compared after an unmatched @pop_mode or the first error"},
 		Worker: c07Worker,
 		Replay: c07Replay,
